@@ -28,7 +28,10 @@ def _lookup(df, row_labels, col_labels):
 
 def check_tcrdist(r, rule):
     rep = r.rep
-    s = r.A.summary(Q)
+    s0 = r.A.summary(Q)
+    s = s0.assuming_assertions()       # a failing assert raises AssertionError: it cannot silently change the reported rows
+    if s is not s0:
+        rep.assume("assertions in nearest_neighbor_tcrdist are taken to hold (a failing assert raises; it cannot silently change the result)")
     rep.analysed(Q, MOD + "_lookup")
     where = where_of(r.P, s.func, s.func.node)
     pn = [p[0] for p in s.params]
